@@ -23,6 +23,11 @@ func VerifC14HashRingEmptied() {
 	r := &ConsistentHashing{baseRoute{sync.Mutex{}, atomic.Value{}, "ch"}}
 	hasher := NewConsistentHasher(dests)
 	r.config.Store(consistentHashingConfig{baseConfig{rm, dests}, &hasher})
+	if verifBool("update-destination-first") {
+		// an accepted modDest on the route (options as the admin port passes them)
+		r.UpdateDestination(0, map[string]string{"prefix": "zz"})
+		r.Dispatch([]byte("warm.up 1 1500000000"))
+	}
 	removed := 0
 	for i := 0; i < n; i++ {
 		if r.DelDestination(0) == nil {
